@@ -1,6 +1,6 @@
 /- Driver.History — the `history` engine (C02): judges every step of a history of modifying calls. -/
 import Hw.Topo.History
-import Hw.Topo.InsertLemmas
+import Hw.Topo.InsertWF
 import Driver.Topo
 namespace Driver.HistoryEng
 open Hw.Topo Hw.Topo.Hist Driver
@@ -62,19 +62,11 @@ def firstDiff (a b : Dump) : String :=
 
 /-! ### Group insertion: the tree shape after the call is PREDICTED by the model of `hwloc___insert_object_by_cpuset` -/
 
-def iobjOf (d : Dump) (o : Obj) : Ins.IObj :=
-  { gp := o.gp, type := o.type, key := o.cpuset.getD 0, ckey := o.ccpuset.getD 0,
-    dm := (o.attrs[3]?).getD 0 != 0, kind := ((o.attrs[1]?).getD 0).toNat, subkind := ((o.attrs[2]?).getD 0).toNat,
-    mem := (d.objs.filter (fun c => c.parent == (o.id : Int) && isMemory c.type)).map (·.gp) }
-
-def treeOfF (d : Dump) : Nat → Nat → Ins.T
-  | 0, _ => .node default []
-  | f + 1, id =>
-    match d.objs[id]? with
-    | some o => .node (iobjOf d o) ((o.children.filter (fun c => decide (0 ≤ c))).map (fun c => treeOfF d f c.toNat))
-    | none => .node default []
-
-def treeOf (d : Dump) : Ins.T := treeOfF d (d.objs.length + 1) d.root.toNat
+/-- the tree the model runs on: `Ins.treeH` (laminar for every well-formed dump: `lam_treeH`) -/
+def treeOf (d : Dump) : Ins.T :=
+  match d.objs[d.root.toNat]? with
+  | some r => Ins.treeH d d.fuel r
+  | none => .node default []
 
 def parseGroupArgs (d : Dump) (t : List String) : Option Ins.GArgs :=
   match t with
